@@ -151,7 +151,7 @@ func Apply(dialect string, m *gm.Schema, e EditRef) ([]string, error) {
 		}
 		return nil, fmt.Errorf("harness: enum-add-value %+v", e)
 	case "add-table":
-		m.Tables = append(m.Tables, gm.Table{Name: e.Obj, Cols: []gm.Col{{Name: "id", Type: intType(dialect)}, {Name: "v", Type: intType(dialect), Null: true}}, PK: []gm.Part{{Col: "id"}}})
+		m.Tables = append(m.Tables, gm.Table{Name: e.Obj, Cols: []gm.Col{{Name: "id", Type: IntType(dialect)}, {Name: "v", Type: IntType(dialect), Null: true}}, PK: []gm.Part{{Col: "id"}}})
 		return []string{"AddTable(" + e.Obj + ")"}, nil
 	case "drop-table":
 		for i := range m.Tables {
@@ -190,7 +190,7 @@ func Apply(dialect string, m *gm.Schema, e EditRef) ([]string, error) {
 	}
 	switch e.Kind {
 	case "add-column":
-		t.Cols = append(t.Cols, gm.Col{Name: e.Obj, Type: intType(dialect), Null: true})
+		t.Cols = append(t.Cols, gm.Col{Name: e.Obj, Type: IntType(dialect), Null: true})
 		return []string{p + "AddColumn(" + e.Obj + ")"}, nil
 	case "drop-column":
 		for i := range t.Cols {
@@ -393,7 +393,7 @@ func orderKinds(k string) string {
 	return strings.Join(out, "+")
 }
 
-func intType(dialect string) string {
+func IntType(dialect string) string {
 	switch dialect {
 	case "mysql":
 		return "int"
